@@ -52,10 +52,11 @@ def gen_fit(rng):
     return est, X, {'n': n, 'D': D, 'kernel': kernel, 'method': method, 'shape': shape, 'seed_type': seed_type, 'seed': seed}
 
 
-def stat_oracle(kernel, method, seed_type, n_seeds, rng):
+def stat_oracle(kernel, method, seed_type, n_seeds, rng, shape=1.0):
     """mean of the kernel estimate over many seeds at fixed point pairs vs the closed-form kernel (6 standard errors)"""
-    D, shape = 20, 1.0
-    pairs = [(np.array([-1.0]), np.array([0.0])), (np.array([0.3]), np.array([1.1])), (np.array([2.0]), np.array([1.5]))]
+    D = 20
+    pairs = [(np.array([-1.0]), np.array([0.0])), (np.array([0.3]), np.array([1.1])), (np.array([2.0]), np.array([1.5])),
+             (np.array([0.7]), np.array([0.7]))]
     if kernel == 'gaussian':
         pairs.append((np.array([0.5, -0.5]), np.array([0.0, 0.4])))
     base = rng.randint(0, 10 ** 6)
@@ -72,7 +73,7 @@ def stat_oracle(kernel, method, seed_type, n_seeds, rng):
         want = kernel_value(kernel, shape, x - y)
         se = vals.std(ddof=1) / np.sqrt(n_seeds)
         if abs(vals.mean() - want) > 6 * se + 1e-3:
-            return (f'{kernel}/{method}/{seed_type} seed: mean kernel estimate {vals.mean():.4f} at x={x.tolist()}, y={y.tolist()} '
+            return (f'{kernel}/{method}/{seed_type} seed, shape={shape}: mean kernel estimate {vals.mean():.4f} at x={x.tolist()}, y={y.tolist()} '
                     f'is {abs(vals.mean() - want) / max(se, 1e-12):.1f} standard errors from the kernel value {want:.4f}',
                     {'kernel': kernel, 'method': method, 'seed_type': seed_type, 'x': x.tolist(), 'y': y.tolist()})
     return None
@@ -153,10 +154,11 @@ def run(ctx):
             for seed_type in ('int', 'instance'):
                 if ctx.tier == 'quick' and method == 'weight_only' and seed_type == 'instance':
                     continue
-                res = stat_oracle(kernel, method, seed_type, n_seeds, ctx.rng)
-                ctx.count('stat:' + seed_type)
-                if res:
-                    ctx.fail(res[0], res[1], {'seed_type': res[1]['seed_type'], 'method': res[1]['method']})
+                for shape in ((1.0, 0.4) if ctx.tier == 'quick' else (1.0, 0.4, 2.5)):
+                    res = stat_oracle(kernel, method, seed_type, n_seeds if shape == 1.0 else n_seeds // 2, ctx.rng, shape)
+                    ctx.count('stat:' + seed_type)
+                    if res:
+                        ctx.fail(res[0], res[1], {'seed_type': res[1]['seed_type'], 'method': res[1]['method']})
     return ctx.finish('other', None)
 
 
